@@ -81,6 +81,18 @@ Proof using leaf_prefix_indep.
     replace (map (fun kv : string * val => (fst kv, snd kv)) d) with d; [reflexivity|].
     rewrite <- (map_id d) at 1. apply map_ext. intros [a b]; reflexivity.
 Qed.
+(* re-prefixing forgets every earlier prefix: a chain of with_prefix calls is the last one *)
+Lemma with_prefix_idem p q m : with_prefix q (with_prefix p m) = with_prefix q m.
+Proof using. destruct m; reflexivity. Qed.
+Lemma with_prefixes_last ps p m : with_prefixes (ps ++ [p]) m = with_prefix p m.
+Proof using.
+  unfold with_prefixes. rewrite fold_left_app. simpl.
+  revert m. induction ps as [|a ps IH]; intros m; simpl; [reflexivity|].
+  rewrite IH. apply with_prefix_idem.
+Qed.
+Theorem prefix_irrelevant_chain ps p qs q m x d :
+  call O leaf (with_prefixes (ps ++ [p]) m) x (pref p d) = call O leaf (with_prefixes (qs ++ [q]) m) x (pref q d).
+Proof using leaf_prefix_indep. rewrite !with_prefixes_last, !call_prefix. reflexivity. Qed.
 Theorem prefix_irrelevant p q m x d :
   call O leaf (with_prefix p m) x (pref p d) = call O leaf (with_prefix q m) x (pref q d).
 Proof using leaf_prefix_indep. rewrite !call_prefix. reflexivity. Qed.
